@@ -663,11 +663,27 @@ def refine_droplet(
     # is controlled by absolute tolerances) does not depend on the contrast of the image
     scale = abs(vrng) if vrng != 0 else 1.0
 
+    # Positions, radii, and interface widths are lengths, whereas the solver terminates
+    # based on absolute numbers (e.g., the norm of the gradient). These parameters are thus
+    # fitted in units of the grid spacing (perturbation amplitudes are dimensionless
+    # already), so the accuracy of the fit does not depend on the unit of length.
+    length = phase_field.grid.typical_discretization
+    units = np.concatenate(
+        [
+            np.full(
+                int(np.prod(dtype[name].shape, dtype=int)),
+                1.0 if name == "amplitudes" else length,
+            )
+            for name in dtype.names
+        ]
+    )[free]
+    bounds = bounds[0] / units, bounds[1] / units
+
     if adjust_values and vrng != 0:
         # fit intensities in addition to all droplet parameters
 
         # add vmin and vrng as separate fitting parameters
-        parameters = np.r_[data_flat[free], vmin, vrng]
+        parameters = np.r_[data_flat[free] / units, vmin, vrng]
         # (the bounds of the two levels are consistent: a range of up to `3 * vrng` below
         # the upper level `vmax` implies that the lower level can be as low as
         # `vmax - 3 * vrng = vmin - 2 * vrng`)
@@ -676,7 +692,7 @@ def refine_droplet(
         def _image_deviation(params):
             """Helper function evaluating the residuals."""
             # generate the droplet
-            data_flat[free] = params[:-2]
+            data_flat[free] = params[:-2] * units
             vmin, vrng = params[-2:]
             droplet.data = unstructured_to_structured(data_flat, dtype=dtype)
             droplet.check_data()
@@ -687,7 +703,7 @@ def refine_droplet(
         result = optimize.least_squares(
             _image_deviation, parameters, bounds=bounds, **least_squares_params
         )
-        data_flat[free] = result.x[:-2]
+        data_flat[free] = result.x[:-2] * units
 
     else:
         # fit only droplet parameters and assume all intensities fixed
@@ -695,7 +711,7 @@ def refine_droplet(
         def _image_deviation(params):
             """Helper function evaluating the residuals."""
             # generate the droplet
-            data_flat[free] = params
+            data_flat[free] = params * units
             droplet.data = unstructured_to_structured(data_flat, dtype=dtype)
             droplet.check_data()
             img = vmin + vrng * droplet._get_phase_field(phase_field.grid)[mask]
@@ -703,9 +719,12 @@ def refine_droplet(
 
         # do the least square optimization
         result = optimize.least_squares(
-            _image_deviation, data_flat[free], bounds=bounds, **least_squares_params
+            _image_deviation,
+            data_flat[free] / units,
+            bounds=bounds,
+            **least_squares_params,
         )
-        data_flat[free] = result.x
+        data_flat[free] = result.x * units
     # store the result as a record (like all other droplets), so attribute access to the
     # data (e.g., when merging droplets) keeps working
     droplet.data = unstructured_to_structured(data_flat, dtype=dtype).view(np.recarray)[()]
